@@ -100,6 +100,7 @@ static struct { int type; void *aux; } odx[MAXOBJ];
 static CO_NODE node; static CO_NODE_SPEC spec;
 static CO_TMR_MEM *tmr_mem; static uint8_t *sdo_buf;
 static CO_EMCY_TBL *emcy_tbl; static int nemcy;
+static int autopool;
 static int cfg_nodeid = 1, cfg_freq = 1000, cfg_tmrn = 16; static uint32_t cfg_baud = 250000;
 static int lss_load_ok = 0; static uint32_t lss_baud; static uint8_t lss_node; static int lss_store_fail;
 #define MAXPARA 8
@@ -296,10 +297,10 @@ static int run_cmd(char *op, int *a, int na) {
     else if (IS("tick")) { int n = na > 0 ? a[0] : 1; while (n-- > 0) { COTmrService(&node.Tmr); COTmrProcess(&node.Tmr); } }
     else if (IS("svc")) { int r = COTmrService(&node.Tmr); ITEM("ret %d", r); }
     else if (IS("proc")) { COTmrProcess(&node.Tmr); }
-    else if (IS("inject")) { ninj = na < 64 ? na : 64; for (int i = 0; i < ninj; i++) inj[i] = a[i]; injpos = 0; return 1; }
     else if (IS("tmr_create")) {      /* handle start cycle [kind arg] */
         int h = a[0]; h_kind[h] = na > 3 ? a[3] : 0; h_arg[h] = na > 4 ? a[4] : 0;
         int r = COTmrCreate(&node.Tmr, (uint32_t)a[1], (uint32_t)a[2], app_fire, (void *)(intptr_t)h);
+        if (r >= 0) for (int g = 0; g < MAXH; g++) if (h_id[g] == r) h_id[g] = -1;   /* real id reused: older handle forgotten */
         h_id[h] = r; ITEM("ret %d", r >= 0 ? 0 : -1);
     }
     else if (IS("tmr_delete")) {      /* handle, or -1/-2/-3 for invalid ids */
@@ -402,7 +403,10 @@ static int run_cmd(char *op, int *a, int na) {
 static char **lines; static int nlines, caplines;
 static void on_alarm(int s) { (void)s; static const char m[] = "; hang\n"; if (write(1, m, sizeof m - 1)) {} _exit(80); }
 
+void __sanitizer_set_death_callback(void (*cb)(void));
+static void on_death(void) { puts(" ; died"); fflush(stdout); }
 static void run_behaviour(void) {
+    __sanitizer_set_death_callback(on_death);
     signal(SIGALRM, on_alarm);
     alarm(10);
     for (int li = 0; li < nlines; li++) {
@@ -416,11 +420,12 @@ static void run_behaviour(void) {
             char name[32]; int v = 0; long long lv = 0; sscanf(ln, "set %31s %lld", name, &lv); v = (int)lv;
             if (!strcmp(name, "nodeid")) cfg_nodeid = v; else if (!strcmp(name, "baud")) cfg_baud = (uint32_t)lv;
             else if (!strcmp(name, "freq")) cfg_freq = v; else if (!strcmp(name, "tmrn")) cfg_tmrn = v;
-            else if (!strcmp(name, "dictmax")) dictmax = v; else if (!strcmp(name, "lssload")) lss_load_ok = v;
+            else if (!strcmp(name, "dictmax")) dictmax = v; else if (!strcmp(name, "autopool")) autopool = v; else if (!strcmp(name, "lssload")) lss_load_ok = v;
             else if (!strcmp(name, "lssbaud")) lss_baud = (uint32_t)lv; else if (!strcmp(name, "lssnode")) lss_node = (uint8_t)v;
             else { fprintf(stderr, "unknown setting %s\n", name); exit(2); }
             continue;
         }
+        if (strcmp(op, "inject") == 0) { ninj = na < 64 ? na : 64; for (int i = 0; i < ninj; i++) inj[i] = a[i]; injpos = 0; continue; }
         if (strcmp(op, "obj") == 0) { mkobj(a[0], a[1], a[2], a[3], a + 4, na - 4); continue; }
         if (strcmp(op, "emcy") == 0) {
             emcy_tbl = realloc(emcy_tbl, sizeof(CO_EMCY_TBL) * (nemcy + 1)); emcy_tbl[nemcy].Reg = (uint8_t)a[0]; emcy_tbl[nemcy].Code = (uint16_t)a[1]; nemcy++; continue;
@@ -436,8 +441,9 @@ static void run_behaviour(void) {
         }
         first_item = 1; fputs("S ", stdout);
         tx_count = 0;
-        int keep_inj = run_cmd(op, a, na);
-        if (!keep_inj) { ninj = 0; injpos = 0; }
+        run_cmd(op, a, na);
+        ninj = 0; injpos = 0;
+        if (autopool) pool_item();
         report_changes();
         puts(""); fflush(stdout);
     }
